@@ -11,6 +11,7 @@ func init() {
 			{Name: "TestPatternAndFormatConcurrent", Rapid: true, Race: true, Quick: 150, Thorough: 2000, QuickShards: 1, ThoroughShards: 2},
 			{Name: "TestSamplersConcurrent", Rapid: true, Race: true, Quick: 100, Thorough: 1000, QuickShards: 1, ThoroughShards: 1},
 			{Name: "TestEncodersConcurrent", Rapid: true, Race: true, Quick: 150, Thorough: 2000, QuickShards: 1, ThoroughShards: 2},
+			{Name: "TestTextResponsesConcurrent", Rapid: true, Race: true, Quick: 150, Thorough: 2000, QuickShards: 1, ThoroughShards: 2},
 			{Name: "TestConcurrentRawBodies", Race: true, QuickShards: 1, ThoroughShards: 2, DesignsQuick: 3, DesignsThorough: 12},
 			{Name: "TestConcurrentStreams", Race: true, QuickShards: 1, ThoroughShards: 2, DesignsQuick: 3, DesignsThorough: 12},
 			{Name: "TestStreamCancelerConcurrent", Rapid: true, Race: true, Quick: 100, Thorough: 1000, QuickShards: 1, ThoroughShards: 2},
@@ -20,7 +21,7 @@ func init() {
 			{Name: "TestConcurrentViews", Rapid: true, Race: true, QuickShards: 1, ThoroughShards: 2, DesignsQuick: 2, DesignsThorough: 8},
 			{Name: "TestConcurrentSecurity", Rapid: true, Race: true, QuickShards: 1, ThoroughShards: 2, DesignsQuick: 2, DesignsThorough: 8},
 		},
-		Rule:      "two kinds of cases. (1) design bursts: a generated design (errors, routes, views, security profiles) is generated, built with the race detector and mounted once; a burst = 48 (quick) or 96 (thorough) requests over its methods mixing valid payloads, single-fault invalid payloads, plain errors, declared and undeclared service errors and denied credentials, with per-request stub results; the burst is run twice sequentially (baseline; cases whose two sequential observations differ are excluded and counted) and then with 2, 8 and 64 client goroutines through the generated client against the generated server (real HTTP listener); 3 (quick) / 10 (thorough) bursts per design. Non-trivial = burst with >= 3 request kinds. (1b) streamed bodies: a fixed design whose methods stream the HTTP request and/or response body themselves (SkipRequestBodyEncodeDecode / SkipResponseBodyEncodeDecode), bursts of 8-48 requests with 8, 16 and 64 workers, every method invocation and every caller must see its own payload, request body and response body. (1c) streams: the fixed stream matrix design (websocket endpoints: result-, payload- and bidirectional streaming), bursts of 8-48 scripted streaming calls with 48, 8 and 2 workers; each end of each stream must see exactly the messages of its own call, in order, and its own initial payload. (2) helper schedules: 2-64 goroutines released together use one shared ErrorEncoder closure, one mounted Muxer (Vars/ResolvePattern), ValidatePattern with cached and never-seen patterns, the fixed/adaptive samplers, the response/request encoders/decoders, the SkipResponseWriter / WriterToFunc adapters (Read+Close, WriteTo and early Close), and the gRPC StreamCanceler interceptor with streams in flight while the server context is cancelled. Non-trivial = >= 3 goroutines with >= 2 kinds of inputs (per test). Distinct = SHA-256 of the burst / goroutine inputs.",
+		Rule:      "two kinds of cases. (1) design bursts: a generated design (errors, routes, views, security profiles) is generated, built with the race detector and mounted once; a burst = 48 (quick) or 96 (thorough) requests over its methods mixing valid payloads, single-fault invalid payloads, plain errors, declared and undeclared service errors and denied credentials, with per-request stub results; the burst is run twice sequentially (baseline; cases whose two sequential observations differ are excluded and counted) and then with 2, 8 and 64 client goroutines through the generated client against the generated server (real HTTP listener); 3 (quick) / 10 (thorough) bursts per design. Non-trivial = burst with >= 3 request kinds. (1b) streamed bodies: a fixed design whose methods stream the HTTP request and/or response body themselves (SkipRequestBodyEncodeDecode / SkipResponseBodyEncodeDecode), bursts of 8-48 requests with 8, 16 and 64 workers, every method invocation and every caller must see its own payload, request body and response body. (1c) streams: the fixed stream matrix design (websocket endpoints: result-, payload- and bidirectional streaming), bursts of 8-48 scripted streaming calls with 48, 8 and 2 workers; each end of each stream must see exactly the messages of its own call, in order, and its own initial payload. (2) helper schedules: 2-64 goroutines released together use one shared ErrorEncoder closure, one mounted Muxer (Vars/ResolvePattern), ValidatePattern with cached and never-seen patterns, the fixed/adaptive samplers, the response/request encoders/decoders, text/plain and text/html responses of handlers of one muxer mixed with requests for routes that are not mounted (before and during the burst), the SkipResponseWriter / WriterToFunc adapters (Read+Close, WriteTo and early Close), and the gRPC StreamCanceler interceptor with streams in flight while the server context is cancelled. Non-trivial = >= 3 goroutines with >= 2 kinds of inputs (per test). Distinct = SHA-256 of the burst / goroutine inputs.",
 		LevelText: "Generated-input search under the Go race detector: every observation of a request run concurrently (status, headers, body, payload received by the service, result or error rebuilt by the client, auth calls, error-handler calls; random error IDs masked) must equal the observation of the same request run alone (metamorphic sequential/concurrent relation, i.e. each response is a function of its own request), and the race detector must stay silent in the harness process (any report is a violation). The helper tests check the same relation against a private instance of the helper. Schedules are those the Go scheduler produces on 16 cores with all goroutines released together; not an exhaustive interleaving search.",
 		LevelNote: "Trusts the Go race detector (happens-before, no false positives), net/http, the verifier's harness (per-case state is carried in the request context and an X-Verif-Case header and guarded by a per-case mutex, so that the harness itself is race-free) and rapid. A schedule-dependent defect that did not occur in the explored schedules and is not a data race by Go's memory model is missed.",
 		Technique: "property-based testing (rapid generators for designs and bursts) + Go race detector; metamorphic oracle: concurrent observation == sequential observation per request",
